@@ -101,17 +101,19 @@ Definition tlz (l : bytes) : bytes := match l with _ :: r => r | [] => [] end. (
 
 Inductive qres := QOk (v : bytes) | QFail | QFuel.
 
-(* the inner loop: while (end < start+len && *end != '\\' && *end != DQUOTE && (uchar)*end > 0x1F && *end != 0x7F) ++end;
-   room = start+len - end *)
+(* the inner loop: while (end < start+len && *end != BACKSLASH && *end != DQUOTE &&
+                          ((uchar)*end > 0x1F || *end == HT) && *end != 0x7F) ++end;       room = start+len - end *)
 Definition qd_char (c : N) : bool :=
-  negb (c =? 92) && negb (c =? 34) && (31 <? c) && negb (c =? 127).
+  negb (c =? 92) && negb (c =? 34) && ((31 <? c) || (c =? 9)) && negb (c =? 127).
 Fixpoint qd_run (room : N) (l : bytes) : bytes * bytes :=
   match l with
   | [] => ([], [])
   | c :: r => if (0 <? room) && qd_char c then let '(a, b) := qd_run (N.pred room) r in (c :: a, b) else ([], l)
   end.
-(* ((uchar)*end <= 0x1F && *end != '\r' && *end != '\n') || *end == 0x7F *)
-Definition bad_ctl (c : N) : bool := ((c <=? 31) && negb (c =? 13) && negb (c =? 10)) || (c =? 127).
+(* ((uchar)*end <= 0x1F && *end != CR && *end != LF && *end != HT) || *end == 0x7F *)
+Definition bad_ctl (c : N) : bool := ((c <=? 31) && negb (c =? 13) && negb (c =? 10) && negb (c =? 9)) || (c =? 127).
+(* the octet after a backslash: !*pos || ((uchar)*pos <= 0x1F && *pos != HT) || *pos == 0x7F  => fail *)
+Definition bad_escaped (c : N) : bool := (c =? 0) || ((c <=? 31) && negb (c =? 9)) || (c =? 127).
 
 (* one iteration of the outer while loop. pos: bytes from the current position; k = pos - start.
    QDone = the function returns (or the loop condition is false); QNext = next iteration *)
@@ -134,11 +136,15 @@ Definition pqs_iter (pos : bytes) (k len : N) (val : bytes) : qstep :=
       let quoted := hdz pos1 =? 92 in
       let pos3 := if quoted then tlz pos1 else pos1 in
       let k3 := if quoted then k1 + 1 else k1 in
-      if quoted && ((hdz pos3 =? 0) || (len <? k3)) then QDone QFail
+      (* if (quoted) { ++pos; if (!*pos || (pos-start) >= len || CTL-but-HT || DEL) fail } *)
+      if quoted && (bad_escaped (hdz pos3) || (len <=? k3)) then QDone QFail
       else
-        let '(run, endp) := qd_run (len - k3) pos3 in
+        (* end = pos; if (quoted) ++end;  -- the escaped octet is taken literally *)
+        let pos4 := if quoted then tlz pos3 else pos3 in
+        let k4 := if quoted then k3 + 1 else k3 in
+        let '(run, endp) := qd_run (len - k4) pos4 in
         if bad_ctl (hdz endp) then QDone QFail
-        else QNext endp (k3 + lenN run) (val ++ run)
+        else QNext endp (k4 + lenN run) (val ++ (if quoted then [hdz pos3] else []) ++ run)
   else if hdz pos =? 34 then QDone (QOk val) else QDone QFail.
 
 Fixpoint pqs_loop (fuel : nat) (pos : bytes) (k len : N) (val : bytes) : qres :=
@@ -251,13 +257,20 @@ Fixpoint seqN (start : N) (n : nat) : list N :=
 
 Definition sep (pcount : N) : bytes := if pcount =? 0 then [] else [44; 32].
 
+(* httpHeaderQuoteString(raw): DQUOTE, raw with DQUOTE and backslash escaped (only when there is one), DQUOTE *)
+Definition is_special (c : N) : bool := (c =? 34) || (c =? 92).
+Definition quote_string (raw0 : bytes) : bytes :=
+  let raw := c_str raw0 in                       (* termedBuf(): the bytes before the first NUL *)
+  let needInnerQuote := existsb is_special raw in
+  34 :: (if needInnerQuote then flat_map (fun c => if is_special c then [92; c] else [c]) raw else raw) ++ [34].
+
 (* the text appended for one set flag: name, then "=value" where the switch says so *)
 Definition pack_one (st : cc) (flag : N) : bytes :=
   name_of cc_table flag ++
   (if flag =? CC_PRIVATE then
-     match private_ st with [] => [] | v => [61; 34] ++ v ++ [34] end
+     match private_ st with [] => [] | v => 61 :: quote_string v end
    else if flag =? CC_NO_CACHE then
-     match no_cache st with [] => [] | v => [61; 34] ++ v ++ [34] end
+     match no_cache st with [] => [] | v => 61 :: quote_string v end
    else if flag =? CC_MAX_AGE then 61 :: dec_of_Z (max_age st)
    else if flag =? CC_S_MAXAGE then 61 :: dec_of_Z (s_maxage st)
    else if flag =? CC_MAX_STALE then
